@@ -434,9 +434,45 @@ func c13tDate(ns int64) string {
 	return time.Unix(0, ns).UTC().Format("2006-01-02")
 }
 
+// c13tHolds: the tag's condition on a stored value under the driver's oracle (match(val, pat) = pat occurs in val)
+func c13tHolds(t c13tTag, val string) bool {
+	switch t.Op {
+	case "=":
+		return val == t.Val
+	case "!=":
+		return val != t.Val
+	case "=~":
+		return strings.Contains(val, t.Val)
+	default:
+		return !strings.Contains(val, t.Val)
+	}
+}
+
+// c13tInstalled: the moment (ns) from which index rows carry timestamp_ns / duration — the last parsable tempo_v2 row — and
+// whether there is one at all. Rows written before the tempo_v2 update have the columns' default, 0.
+func c13tInstalled(v c13tVer) (int64, bool) {
+	at, ok := int64(0), false
+	for _, r := range v.Rows {
+		if r[0] != "tempo_v2" {
+			continue
+		}
+		if t, err := strconv.ParseInt(r[1], 10, 64); err == nil {
+			at, ok = t, true
+		}
+	}
+	if !ok {
+		return 0, false
+	}
+	if at > 9000000000 || at < -9000000000 {
+		return at, false // the int64 product wraps: such a value is not the record of an installation
+	}
+	return at * 1e9, true
+}
+
 // c13tGenDb: spans inside the window, exactly at its ends, and — the ones that matter — on the first and the last UTC day
-// of the window but outside of it, plus the neighbouring days; the attribute index repeats each span's timestamp
-func c13tGenDb(rng *h.Rng, q c13tReq) ([]c13tSpan, []c13tAttr) {
+// of the window but outside of it, plus the neighbouring days; the attribute index repeats each span's timestamp and
+// duration for spans stored since the tempo_v2 update and holds 0 for older ones (and everywhere without the update)
+func c13tGenDb(rng *h.Rng, q c13tReq, v c13tVer) ([]c13tSpan, []c13tAttr) {
 	var spans []c13tSpan
 	var attrs []c13tAttr
 	from, to := q.From, q.To
@@ -446,6 +482,7 @@ func c13tGenDb(rng *h.Rng, q c13tReq) ([]c13tSpan, []c13tAttr) {
 	if to <= from {
 		to = from + 1
 	}
+	installed, hasV2 := c13tInstalled(v)
 	dayFrom, dayTo := from/86400e9*86400e9, to/86400e9*86400e9
 	add := func(ts int64, where string) {
 		if ts < 0 {
@@ -453,18 +490,36 @@ func c13tGenDb(rng *h.Rng, q c13tReq) ([]c13tSpan, []c13tAttr) {
 		}
 		s := c13tSpan{Trace: fmt.Sprintf("%032x", rng.U64()), Span: fmt.Sprintf("%016x", rng.U64()), Svc: h.Pick(rng, []string{"api", "db", "web"}),
 			Name: h.Pick(rng, []string{"GET /", "query", "render"}), Ts: ts, Dur: h.Pick(rng, []int64{1, 999999, 1000000, 2500000, 1500000000, 70000000000}),
-			Where: where, Match: !rng.Chance(15)}
-		spans = append(spans, s)
+			Where: where, Match: true}
 		miss := -1
-		if !s.Match && len(q.Tags) > 0 {
+		if rng.Chance(15) && len(q.Tags) > 0 {
 			miss = rng.Intn(len(q.Tags))
 		}
+		its, idur := ts, s.Dur
+		if !hasV2 || ts < installed {
+			its, idur = 0, 0
+		}
+		var own []c13tAttr
 		for i, t := range q.Tags {
-			attrs = append(attrs, c13tAttr{c13tDate(ts), t.Key, c13tValFor(rng, t, i != miss), s.Trace, s.Span, ts, s.Dur})
+			own = append(own, c13tAttr{c13tDate(ts), t.Key, c13tValFor(rng, t, i != miss), s.Trace, s.Span, its, idur})
 		}
+		// a tag is satisfied by ANY index row of the span with its key (two tags may share a key)
+		for _, t := range q.Tags {
+			found := false
+			for _, a := range own {
+				if a.Key == t.Key && c13tHolds(t, a.Val) {
+					found = true
+				}
+			}
+			if !found {
+				s.Match = false
+			}
+		}
+		attrs = append(attrs, own...)
 		if rng.Chance(30) {
-			attrs = append(attrs, c13tAttr{c13tDate(ts), "other.key", "v", s.Trace, s.Span, ts, s.Dur})
+			attrs = append(attrs, c13tAttr{c13tDate(ts), "other.key", "v", s.Trace, s.Span, its, idur})
 		}
+		spans = append(spans, s)
 	}
 	between := func(a, b int64) int64 {
 		if b <= a {
@@ -531,13 +586,17 @@ func c13JudgeTempo(r *h.Result, rng *h.Rng, n int) error {
 		if rng.Chance(70) && !q.HasTags {
 			continue // mostly tag searches
 		}
+		if rng.Chance(55) {
+			// requests whose result is determined by tags and window alone: completeness can be judged
+			q.MinDur, q.MaxDur, q.Limit = 0, 0, h.Pick(rng, []int{0, 1000, -1})
+		}
 		v := c13tGenVer(rng, q)
 		stmt, _, _, err := c13tRun(q, v, nil)
 		if err != nil {
 			r.Count("judge-tempo:impl-error")
 			continue
 		}
-		spans, attrs := c13tGenDb(rng, q)
+		spans, attrs := c13tGenDb(rng, q, v)
 		ss, as := c13tDbSer(spans, attrs)
 		ops = append(ops, fmt.Sprintf("c13tjudge %d %d %s %s %s", q.From, q.To, h.Hex([]byte(stmt)), ss, as))
 		cs = append(cs, jc{q, v, stmt, spans, attrs})
@@ -620,6 +679,27 @@ func c13JudgeTempo(r *h.Result, rng *h.Rng, n int) error {
 		}
 		if returned > 0 {
 			r.Count("judge-tempo:returned-spans")
+		}
+		// nothing inside the window is missed (no duration bounds, no effective limit, a value recorded for tempo_v2 that is
+		// the record of an installation): every span in (from, to] that carries all the tags is returned
+		if c.q.MinDur <= 0 && c.q.MaxDur <= 0 && (c.q.Limit <= 0 || c.q.Limit >= len(c.spans)) && !(c.q.HasTags && len(c.q.Tags) == 0) &&
+			c.v.Kind != "overflowing-product" && c.v.Kind != "signed" {
+			got := map[string]bool{}
+			if f[6] != "-" {
+				for _, row := range strings.Split(f[6], ",") {
+					p := strings.Split(row, ":")
+					got[p[0]+":"+p[1]] = true
+				}
+			}
+			for _, s := range c.spans {
+				if s.Ts > c.q.From && s.Ts <= c.q.To && (s.Match || !c.q.HasTags) && !got[s.Trace+":"+s.Span] {
+					r.Violate("C13/tempo-search/span-inside-window-missed",
+						fmt.Sprintf("legacy Tempo search, version state %q: span %s of trace %s (timestamp_ns %d, %s) carries all tags and lies in the window (%d, %d] but the statement does not return it",
+							c.v.Kind, s.Span, s.Trace, s.Ts, s.Where, c.q.From, c.q.To), replay(map[string]any{"missed": s}))
+					break
+				}
+			}
+			r.Count("judge-tempo:completeness-judged")
 		}
 		if boundary {
 			r.Count("judge-tempo:matching-spans-on-boundary-days-outside-window")
